@@ -207,6 +207,7 @@ pub fn run(ctx: &Ctx, out: &mut Out, prop: &str) {
     }
     if c20 {
         real_server_outputs(ctx, out, &mut rng);
+        config_loading_under_trace(ctx, out, &mut rng);
     }
     if !c20 && ctx.shard % 4 == 0 {
         for _ in 0..(if ctx.thorough { 6 } else { 2 }) {
@@ -222,6 +223,7 @@ pub fn run(ctx: &Ctx, out: &mut Out, prop: &str) {
     out.obs(&format!("shards_at_level_{}", level), 1);
     if c20 {
         out.floor("real_server_outputs_scanned", 8);
+        out.floor("config_loads_scanned", 20);
         out.floor("real_server_failing_startups_scanned", 4);
         out.floor("log_records_scanned", 1_000);
         out.floor("datagrams_scanned", 500);
@@ -280,7 +282,14 @@ fn real_server_outputs(ctx: &Ctx, out: &mut Out, rng: &mut Rng) {
         let mut what = "serving".to_string();
         if failing {
             let hx = hex(&seed);
-            let (kk, vv, w): (&str, String, &str) = match (k / 3) % 14 {
+            let (kk, vv, w): (&str, String, &str) = match (k / 3) % 21 {
+                14 => ("seed", format!("[{}]", hx), "seed written as a YAML sequence"),
+                15 => ("seed", format!("{{value: {}}}", hx), "seed written as a YAML mapping"),
+                16 => ("__raw__misspelt", format!("sead: {}", hx), "the seed under a misspelt key"),
+                17 => ("__raw__nested", format!("server:\n  seed: {}\n  port: 1", hx), "the seed nested under an unknown section"),
+                18 => ("__raw__upper", format!("SEED: {}", hx), "the seed under an upper-case key (next to the real one)"),
+                19 => ("seed", format!("[{}, {}]", &hx[..32], &hx[32..]), "seed split over a YAML sequence"),
+                20 => ("__raw__dup", format!("Seed: {}", hx), "the seed under a capitalised key (next to the real one)"),
                 0 => ("batch_size", "200".into(), "batch_size out of range"),
                 1 => ("fault_percentage", "77".into(), "fault_percentage out of range"),
                 2 => ("port", "0".into(), "port 0"),
@@ -429,5 +438,61 @@ fn accept_fault_scenario(out: &mut Out, rng: &mut Rng) {
                 out.obs("accept_fault_survived", 1);
             }
         }
+    }
+}
+
+
+/// C20: the configuration loaders themselves, called in this process under the capturing logger
+/// at Trace (the real binary is fixed at Info, so anything they log at Debug/Trace is only
+/// visible this way). Files with key-spelling variants, extra keys, typed seeds; both accepted
+/// and refused ones. Panics are refusals; whatever was logged is searched.
+fn config_loading_under_trace(ctx: &Ctx, out: &mut Out, rng: &mut Rng) {
+    let dir = ctx.scratch.join("cfgload");
+    std::fs::create_dir_all(&dir).ok();
+    for i in 0..ctx.share(64, 1_600) {
+        let seed = if i % 4 == 1 { (0..32).map(|_| (rng.below(10) * 16 + rng.below(10)) as u8).collect::<Vec<u8>>() } else { rng.bytes(32) };
+        let hx = hex(&seed);
+        let nd = needles("seed", &seed).into_iter().chain(needles("scalar", &clamped_scalar(&seed))).collect::<Vec<_>>();
+        let seed_line = match i % 9 {
+            0 => format!("seed: {}", hx),
+            1 => format!("seed: {}", hx),
+            2 => format!("SEED: {}", hx),
+            3 => format!("Seed: {}", hx),
+            4 => format!("seed: \"{}\"", hx),
+            5 => format!("seed: {}\nsead: {}", hx, hx),
+            6 => format!("seed: [{}]", hx),
+            7 => format!("seed: {}\nbatch_size: {}", hx, rng.range(0, 300)),
+            _ => format!("seed: {}\nclient_stats: on\npersistence_directory: {}", hx, dir.display()),
+        };
+        let txt = format!("interface: 127.0.0.1\nport: {}\n{}\n", 2000 + i, seed_line);
+        let path = dir.join(format!("c{}.cfg", i));
+        if std::fs::write(&path, &txt).is_err() {
+            continue;
+        }
+        let _ = take_logs();
+        let p2 = path.to_str().unwrap().to_string();
+        let r = std::panic::catch_unwind(move || match roughenough::config::make_config(&p2) {
+            Ok(c) => {
+                let _ = roughenough::config::is_valid_config(c.as_ref());
+                true
+            }
+            Err(e) => {
+                // what the server binary does with a configuration error
+                log::error!("{:?}", e);
+                false
+            }
+        });
+        let panic_text = crate::inproc::take_panics().join(" | ");
+        out.obs("config_loads_scanned", 1);
+        out.obs(match r { Ok(true) => "config_loads_accepted", Ok(false) => "config_loads_err", Err(_) => "config_loads_panicked" }, 1);
+        out.case(fnv64(&seed) ^ 0xcf6, true);
+        let rp = || json!({"kind":"config-load","file": txt.replace(&hx, "<seed>")});
+        for l in take_logs() {
+            out.obs("log_records_scanned", 1);
+            scan(out, l.msg.as_bytes(), &nd, &format!("config-load-log-{}", l.level), &rp);
+        }
+        // a panic message ends up on stderr of the real server
+        scan(out, panic_text.as_bytes(), &nd, "config-load-panic-text", &rp);
+        let _ = std::fs::remove_file(&path);
     }
 }
